@@ -25,6 +25,7 @@ func init() {
 		{Name: "range loop label breaks to the loop block", File: "internal/ssa/builder.go", Old: "\t\tlabel._break = done\n\t\tlabel._continue = loop\n", New: "\t\tlabel._break = loop\n\t\tlabel._continue = loop\n", Expect: "labelled-jump-targets"},
 		{Name: "named results reloaded after defers only for a bare return", File: "internal/ssa/builder.go", Old: "\t\tfn.emit(new(RunDefers))\n\t\tif fn.namedResults != nil {", New: "\t\tfn.emit(new(RunDefers))\n\t\tif fn.namedResults != nil && len(results) == 0 {", Expect: "named-results-around-defers"},
 		{Name: "deferred calls run before the return operands are stored", File: "internal/ssa/builder.go", Old: "\t\t// Run function calls deferred in this\n\t\t// function when explicitly returning from it.\n\t\tfn.emit(new(RunDefers))\n\t\tif fn.namedResults != nil {", New: "\t\tif fn.namedResults != nil {", Expect: "named-results-around-defers"},
+		{Name: "append in place always copies from the first element up", File: "internal/backends/compiler_wat/wir/value_slice.go", Old: "\t\t\tif_true = append(if_true, wat.NewInstIf(backward, nil, nil))\n", New: "\t\t\t_ = backward\n\t\t\tif_true = append(if_true, wat.NewInstDrop())\n", Expect: "append-overlap-direction"},
 		{Name: "append reallocates when it exactly fills the capacity", File: "internal/backends/compiler_wat/wir/value_slice.go", Old: "\tf.Insts = append(f.Insts, x.ExtractByName(\"c\").EmitPush()...)\n\tf.Insts = append(f.Insts, wat.NewInstLe(wat.U32{}))", New: "\tf.Insts = append(f.Insts, x.ExtractByName(\"c\").EmitPush()...)\n\tf.Insts = append(f.Insts, wat.NewInstLt(wat.U32{}))", Expect: "append-in-place-threshold"},
 		{Name: "unsigned division formats as div_s", File: "internal/backends/compiler_wat/wir/wat/instruction_arith.go", Old: "sb.WriteString(\"i32.div_u\")", New: "sb.WriteString(\"i32.div_s\")", Expect: "mnemonic-by-type :: instDiv"},
 		{Name: "u64 shr formats arithmetic", File: "internal/backends/compiler_wat/wir/wat/instruction_bit.go", Old: "sb.WriteString(\".shr_u\")", New: "sb.WriteString(\".shr_s\")", Expect: "instShr"},
@@ -572,6 +573,55 @@ func runC01(c *Ctx) {
 			break
 		}
 		c.Check(verdict, "append-in-place-threshold", "Slice.genAppendFunc: new_len <= cap (u32)", p.Pos(fd.Pos()), "reuse iff new_len <= cap", detail+"; Go's append writes into the existing backing array exactly when the new length does not exceed the capacity (unsigned comparison): with another test an append that exactly fills the capacity reallocates, and slices sharing the array stop seeing each other's writes")
+	}
+
+	// ---- (8b) append in place copies in the right direction when source and destination overlap (added after
+	// probing: `q = append(q[:2], q[1:]...)`, the insert-by-shift idiom, gave 1 99 2 2 2 2 — the in-place branch always
+	// copied from the first element up, overwriting elements it had not read yet). The generated loop advances both
+	// pointers by a local step, and before the loop a test `dest > src` (unsigned) exists under which that step is
+	// set to 0 - item_size.
+	if s, fd := seqOf(p, wir, "Slice.genAppendFunc"); fd != nil {
+		const arule = "append-overlap-direction"
+		isLocal := func(recv, name string) bool { return strings.HasPrefix(recv, "NewLocal(\""+name+"\"") }
+		test, negStep := false, false
+		stepName := ""
+		var constSteps []string
+		ev := s.Events
+		for i := 2; i < len(ev); i++ {
+			e := ev[i]
+			if e.Kind == "ctor" && e.Name == "Gt" && ev[i-2].Kind == "deleg" && ev[i-1].Kind == "deleg" && isLocal(ev[i-2].Recv, "dest") && isLocal(ev[i-1].Recv, "src") && len(e.Args) == 1 && strings.Contains(e.Args[0], "U32") {
+				// … and it decides an `if` (within the next few instructions: the test may be combined with y_len != 0)
+				for j := i + 1; j < len(ev) && j <= i+5; j++ {
+					if ev[j].Kind == "ctor" && ev[j].Name == "If" && len(ev[j].Args) >= 1 && ev[j].Args[0] != "nil" {
+						test = true
+					}
+				}
+			}
+			// ptr += X : EmitPush(ptr) EmitPush(X) Add EmitPop(ptr), for ptr in {src, dest}, X a single push
+			if e.Kind == "ctor" && e.Name == "Add" && i+1 < len(ev) && ev[i-2].Kind == "deleg" && ev[i-1].Kind == "deleg" && ev[i+1].Kind == "deleg" && ev[i+1].Name == "EmitPop" {
+				for _, ptr := range []string{"src", "dest"} {
+					if isLocal(ev[i-2].Recv, ptr) && isLocal(ev[i+1].Recv, ptr) && ev[i-2].Name == "EmitPush" && ev[i-1].Name == "EmitPush" {
+						x := ev[i-1].Recv
+						if strings.HasPrefix(x, "NewLocal(") {
+							stepName = x
+						} else if strings.HasPrefix(x, "NewConst(") && !strings.HasPrefix(x, "NewConst(\"1\"") {
+							// only inside the in-place loop (first loop of the function) — the reallocating branch copies
+							// into a fresh array, where the direction does not matter
+							if len(ev[i].Guards) > 0 && !strings.HasPrefix(ev[i].Guards[len(ev[i].Guards)-1], "!") {
+								constSteps = append(constSteps, ptr+" += "+x)
+							}
+						}
+					}
+				}
+			}
+			// step = 0 - item_size : EmitPush(NewConst("0")) EmitPush(item_size) Sub EmitPop(step)
+			if e.Kind == "ctor" && e.Name == "Sub" && i+1 < len(ev) && ev[i-2].Kind == "deleg" && strings.HasPrefix(ev[i-2].Recv, "NewConst(\"0\"") && ev[i+1].Kind == "deleg" && ev[i+1].Name == "EmitPop" && strings.HasPrefix(ev[i+1].Recv, "NewLocal(") {
+				negStep = true
+			}
+		}
+		good := test && negStep && stepName != ""
+		detail := fmt.Sprintf("direction test dest >u src: %v; step negated under it: %v; pointers advanced by a local: %v", test, negStep, stepName != "")
+		c.Check(good, arule, "Slice.genAppendFunc: in-place copy", p.Pos(fd.Pos()), "from the last element down when dest > src", detail+": the in-place branch of append copies from the first element up whatever the positions of the two ranges; when the appended slice shares the backing array and starts before the end of the target (`append(s[:i+1], s[i:]...)`) elements are overwritten before they are read")
 	}
 
 	// ---- (7) constant bytes
